@@ -14,8 +14,8 @@ import subprocess
 from . import env
 from .proj import enc
 
-OPS_OF = {"C01": {"in_tz"}, "C02": {"create"}, "C03": {"add_fixed"}, "C04": {"add_cal"}, "C12": {"start_of", "end_of"},
-          "C14": {"copy"}}
+OPS_OF = {"C01": {"in_tz"}, "C02": {"create", "set"}, "C03": {"add_fixed"}, "C04": {"add_cal"}, "C12": {"start_of", "end_of"},
+          "C14": {"copy"}, "C16": {"next", "previous", "first_of", "last_of"}}
 
 
 def simulate(seed, num, depth, workdir, tag):
